@@ -488,6 +488,8 @@ fn no_negative_zero(d: &str) -> String {
 
 // ---- sentinel sweep: any leaf of the JSON tree set to a value that omit rules typically test for
 
+/// texts that a careless text-level step (comment stripping, trimming, escaping) would damage
+const STRING_SENTINELS: [&str; 8] = ["", "Lucernario 36\" // oeste", "a\\b \"q\" /* c */ // d", " con espacios ", "ñ ü º € \u{1F600}", "línea 1\nlínea 2\t# fin", "{\"id\": null}", "http://x/y?z=1&w=2"];
 const SENTINELS: [f64; 10] = [0.0, 1.0, -1.0, 0.5, 50.0, 100.0, 0.01, 2.0, 90.0, 180.0];
 
 fn leaf_paths(v: &Value, cur: String, out: &mut Vec<String>) {
@@ -498,9 +500,8 @@ fn leaf_paths(v: &Value, cur: String, out: &mut Vec<String>) {
             }
         }
         Value::Array(a) => {
-            if a.is_empty() {
-                out.push(cur.clone());
-            }
+            // the array itself is a leaf too (emptied, cut to one or two elements, lengthened)
+            out.push(cur.clone());
             for (i, c) in a.iter().enumerate() {
                 leaf_paths(c, format!("{}/{}", cur, i), out);
             }
@@ -564,6 +565,7 @@ fn check_sentinels(h: &CaseH, c: &(Plan, Vec<(u32, u8)>)) -> Verdict {
         return Verdict::Pass;
     }
     let mut touched = vec![];
+    let mut special: Vec<&'static str> = vec![];
     for (pi, si) in &c.1 {
         let p = &paths[(*pi as usize) % paths.len()];
         if let Some(node) = v.pointer_mut(p) {
@@ -575,10 +577,28 @@ fn check_sentinels(h: &CaseH, c: &(Plan, Vec<(u32, u8)>)) -> Verdict {
                 Value::Bool(b) => *b = !*b,
                 Value::String(s) => {
                     if s.len() != 36 {
-                        s.clear();
+                        *s = STRING_SENTINELS[(*si as usize) % STRING_SENTINELS.len()].to_string();
+                        if s.contains('"') && s.contains("//") {
+                            special.push("string/quote-and-slashes");
+                        }
                     }
                 }
-                Value::Array(a) => a.clear(),
+                Value::Array(a) => {
+                    let before = a.len();
+                    match *si % 4 {
+                        0 => a.clear(),
+                        1 => a.truncate(1),
+                        2 => a.truncate(2),
+                        _ => {
+                            if let Some(first) = a.first().cloned() {
+                                a.push(first);
+                            }
+                        }
+                    }
+                    if a.len() != before && (a.len() == 1 || a.len() == 2) {
+                        special.push("array/cut-to-1-or-2");
+                    }
+                }
                 _ => {}
             }
             // the key the leaf belongs to (arrays: the key of the array)
@@ -594,6 +614,9 @@ fn check_sentinels(h: &CaseH, c: &(Plan, Vec<(u32, u8)>)) -> Verdict {
         }
     };
     h.class("loaded");
+    for k in &special {
+        h.class(k);
+    }
     for k in &touched {
         h.class(&format!("field/{}", k));
     }
@@ -788,6 +811,8 @@ pub fn run_c04(args: &Args) -> ! {
     ctx.run_prop("raw_numbers", ctx.tier().pick(20_000, 200_000), raw_numbers_case, check_raw);
     ctx.run_prop("sentinels", ctx.tier().pick(60_000, 1_000_000), sentinel_case, check_sentinels);
     ctx.require_class("sentinels/loaded");
+    ctx.require_class("sentinels/string/quote-and-slashes");
+    ctx.require_class("sentinels/array/cut-to-1-or-2");
     ctx.require_class("generated/names/empty");
     ctx.require_class("generated/names/given");
     if ctx.tier() == crate::engine::Tier::Thorough {
@@ -1352,6 +1377,32 @@ fn check_purge(h: &CaseH, c: &(Plan, u8, bool)) -> Verdict {
             h.class("ids-shared-across-schedule-levels");
         }
     }
+    // a library numbered from zero: the first wall construction / window construction in use carries the all-zero id
+    if c.0.salt % 5 == 1 {
+        let zero = Uuid::nil();
+        if let Some(old) = m.walls.first().map(|w| w.cons) {
+            if !m.cons.wallcons.iter().any(|c| c.id == zero) {
+                if let Some(i) = m.cons.wallcons.iter().position(|c| c.id == old) {
+                    m.cons.wallcons[i].id = zero;
+                    for w in m.walls.iter_mut().filter(|w| w.cons == old) {
+                        w.cons = zero;
+                    }
+                    h.class("construction-in-use-with-the-all-zero-id");
+                }
+            }
+        }
+        if let Some(old) = m.windows.first().map(|w| w.cons) {
+            if !m.cons.wincons.iter().any(|c| c.id == zero) {
+                if let Some(i) = m.cons.wincons.iter().position(|c| c.id == old) {
+                    m.cons.wincons[i].id = zero;
+                    for w in m.windows.iter_mut().filter(|w| w.cons == old) {
+                        w.cons = zero;
+                    }
+                    h.class("construction-in-use-with-the-all-zero-id");
+                }
+            }
+        }
+    }
     let v = check_purge_model(h, &m, c.2);
     h.sample(|| json!({"spaces": m.spaces.len(), "walls": m.walls.len(), "loads": m.loads.len(), "years": m.schedules.year.len(), "weeks": m.schedules.week.len(), "days": m.schedules.day.len(), "mask": c.1}));
     v
@@ -1368,7 +1419,7 @@ pub fn run_c16(args: &Args) -> ! {
         check_purge_model(h, m, true)
     });
     ctx.run_prop("generated", ctx.tier().pick(100_000, 1_000_000), purge_case, check_purge);
-    for c in ["generated/orphaned-space", "generated/space-referenced-only-by-next_to", "generated/removed/spaces", "generated/removed/thermal_bridges", "generated/removed/wallcons", "generated/removed/wincons", "generated/removed/materials", "generated/removed/glasses", "generated/removed/frames", "generated/removed/loads", "generated/removed/thermostats", "generated/removed/year", "generated/removed/week", "generated/removed/day", "generated/with-indicators", "generated/ids-shared-across-schedule-levels"] {
+    for c in ["generated/orphaned-space", "generated/space-referenced-only-by-next_to", "generated/removed/spaces", "generated/removed/thermal_bridges", "generated/removed/wallcons", "generated/removed/wincons", "generated/removed/materials", "generated/removed/glasses", "generated/removed/frames", "generated/removed/loads", "generated/removed/thermostats", "generated/removed/year", "generated/removed/week", "generated/removed/day", "generated/with-indicators", "generated/ids-shared-across-schedule-levels", "generated/construction-in-use-with-the-all-zero-id"] {
         ctx.require_class(c);
     }
     if ctx.tier() == crate::engine::Tier::Thorough {
